@@ -9,7 +9,7 @@ Driver for Model/Store.lean (stateful; several database files, one process-globa
 operations:
   adsToDb <name> <T|F autoinsert> <T|F overwrite> <type=[v;v]>…          (value `~` = None)
   matToDb <name> <T|F> <T|F> <type=[v]>…
-  adsDelete <name> | matDelete <name> | isoDelete <id>
+  adsDelete <name> | matDelete <name> | isoDelete <id> | isoPropTypeOp <entry point>
   typeToDb <adsorbate|material|isotherm> <type|~> <unit> <description> <T|F overwrite>     (`""` = NULL/empty)
   typeDelete <table> <type>
   isoToDb <id> <iso_type> <material> <adsorbate> <temperature> <T|F autoMat> <T|F autoAds> / <material props…> / <adsorbate props…> / <type=value>… / <type:dtype:digest>…
@@ -88,6 +88,7 @@ def parseOp (ts : List String) : Option Op :=
     let o ← parseBool o
     some (.typeToDb tb (optStr t) (unq u) (unq d) o)
   | ["typeDelete", tb, t] => some (.typeDelete tb t)
+  | ["isoPropTypeOp", w] => some (.isoPropTypeOp w)
   | "isoToDb" :: id :: ty :: m :: a :: temp :: am :: aa :: rest => do
     let am ← parseBool am; let aa ← parseBool aa
     match splitSections rest with
